@@ -201,6 +201,30 @@ def mof_prod(p):
     return 'class C11_Broken { string ; };'
 
 
+def mof_items_text(items, tmpdir, counter, relative):
+    """MOF text of a list of items; include files are written into tmpdir (named by include pragmas relative to the
+    including file when the main text is compiled from a file in tmpdir, else by absolute path)"""
+    out = []
+    for it in items:
+        k = it['k']
+        if k == 'pragma_ns':
+            out.append('#pragma namespace ("%s")' % it['ns'])
+        elif k == 'bad_pragma':
+            out.append('#pragma namespace ("//somehost/root/a")')
+        elif k == 'other_pragma':
+            out.append('#pragma locale ("en_US")')
+        elif k == 'include_file':
+            counter[0] += 1
+            name = 'inc%d.mof' % counter[0]
+            inner = mof_items_text(it['items'], tmpdir, counter, relative)
+            with open(os.path.join(tmpdir, name), 'w') as f:
+                f.write(inner + '\n')
+            out.append('#pragma include ("%s")' % (name if relative else os.path.join(tmpdir, name)))
+        else:
+            out.append(mof_prod(it))
+    return '\n'.join(out)
+
+
 def py_obj(o):
     import pywbem
     if o['k'] == 'cls':
@@ -339,7 +363,13 @@ def real_op(conn, op):
         i = py_inst(op['inst'])
         i.path = py_path(op['path'])
         i.path.namespace = ns
-        conn.ModifyInstance(i)
+        if op.get('pl') is not None:
+            conn.ModifyInstance(i, PropertyList=list(op['pl']))
+        else:
+            conn.ModifyInstance(i)
+    elif k == 'installNsProvider':
+        import pywbem_mock
+        conn.register_provider(pywbem_mock.CIMNamespaceProvider(conn.cimrepository), namespaces=[ns])
     elif k == 'deleteInstance':
         p = py_path(op['path'])
         p.namespace = ns
@@ -357,17 +387,20 @@ def real_op(conn, op):
         # with an empty cache (the oracle-only search also runs with the cache left alone)
         if not op.get('keep_cache'):
             conn._mofwbemconnection.classes = NocaseDict()      # pylint: disable=protected-access
-        text = '\n'.join(mof_prod(p) for p in op['prods'])
-        if op.get('via') == 'file':
-            fd, path = tempfile.mkstemp(suffix='.mof', prefix='c11_')
-            try:
-                with os.fdopen(fd, 'w') as f:
+        import shutil
+        tmpdir = tempfile.mkdtemp(prefix='c11_')
+        try:
+            via_file = op.get('via') == 'file'
+            text = mof_items_text(op['prods'], tmpdir, [0], relative=via_file)
+            if via_file:
+                path = os.path.join(tmpdir, 'main.mof')
+                with open(path, 'w') as f:
                     f.write(text)
                 conn.compile_mof_file(path, namespace=ns)
-            finally:
-                os.unlink(path)
-        else:
-            conn.compile_mof_string(text, namespace=ns)
+            else:
+                conn.compile_mof_string(text, namespace=ns)
+        finally:
+            shutil.rmtree(tmpdir, ignore_errors=True)
     else:
         raise ValueError(op)
 
@@ -431,6 +464,7 @@ class Gen:
         self.rng = rng
         self.n = 0
         self.thorough = thorough
+        self.nsprov = None      # Interop namespace the CIM_Namespace provider is registered for, if any
 
     def fresh(self, pre):
         self.n += 1
@@ -1142,7 +1176,178 @@ class Gen:
             i['props'].append(pv(p['name'], p['ty'], sval(p['val']['s'] + 'changed')))
         elif reason == 'bad_ns':
             ns = self.bad_ns()
-        return {'op': 'modifyInstance', 'ns': ns, 'path': path, 'inst': i, 'reason': reason}
+        op = {'op': 'modifyInstance', 'ns': ns, 'path': path, 'inst': i, 'reason': reason}
+        if rng.random() < 0.45:
+            self.add_pl(op, c, keys)
+        return op
+
+    def add_pl(self, op, c, keys):
+        """decorate a ModifyInstance request with a PropertyList (reason gets a ':pl_<kind>' suffix)"""
+        rng = self.rng
+        have = [p['name'] for p in op['inst']['props']]
+        have_lc = {h.lower() for h in have}
+        others = [p['name'] for p in c['props'] if p['name'].lower() not in keys and p['name'].lower() not in have_lc]
+        kind = rng.choice(['subset', 'subset', 'superset', 'superset', 'all_class', 'empty', 'dup_case', 'unknown',
+                           'key_missing', 'key_present'])
+        sub = [recase(rng, h) for h in have if rng.random() < 0.6]
+        if kind == 'subset':
+            pl = sub
+        elif kind == 'superset':
+            pl = [recase(rng, h) for h in have] + [recase(rng, o) for o in others if rng.random() < 0.7]
+            rng.shuffle(pl)
+        elif kind == 'all_class':
+            pl = [p['name'] for p in c['props'] if p['name'].lower() not in keys]
+        elif kind == 'empty':
+            pl = []
+        elif kind == 'dup_case':
+            pl = sub + [h.upper() for h in sub] + [o for o in others[:1]] + [o.lower() for o in others[:1]]
+        elif kind == 'unknown':
+            pl = sub + ['nosuchprop']
+        elif kind == 'key_missing':
+            missing = [k for k in sorted(keys) if k not in have_lc]
+            if not missing:
+                return
+            pl = sub + [recase(rng, rng.choice(missing))]
+        else:
+            present = [h for h in have if h.lower() in keys]
+            if not present:
+                return
+            pl = sub + [recase(rng, rng.choice(present))]
+        op['pl'] = pl
+        op['reason'] = op['reason'] + ':pl_' + kind
+
+    # ---- the CIM_Namespace provider
+    NSCLASS = 'CIM_Namespace'
+    NSKEYS = [('SystemCreationClassName', 'CIM_ComputerSystem'), ('SystemName', 'MockSystem_WBEMServerTest'),
+              ('ObjectManagerCreationClassName', 'CIM_ObjectManager'), ('ObjectManagerName', 'FakeObjectManager'),
+              ('CreationClassName', 'CIM_Namespace')]
+
+    def nsprov_setup(self, interop):
+        """operations that create the Interop namespace with class CIM_Namespace and register the provider"""
+        rng = self.rng
+        self.nsprov = interop
+        cls = cdef(self.NSCLASS, None, [], [pdef(k, 'string', quals=[KEYQ]) for k, _ in self.NSKEYS] +
+                   [pdef('Name', 'string', quals=[KEYQ]), pdef('Descr', 'string')])
+        ops = [{'op': 'addNamespace', 'ns': interop, 'reason': 'ok'}]
+        if rng.random() < 0.5:
+            ops.append({'op': 'compileMof', 'ns': interop, 'prods': [{'k': 'qual', 'qual': QDECLS[0]}, {'k': 'cls', 'cls': cls}]})
+        else:
+            ops.append({'op': 'addObjects', 'ns': interop, 'objs': [{'k': 'qual', 'qual': QDECLS[0]}, {'k': 'cls', 'cls': cls}]})
+        ops.append({'op': 'installNsProvider', 'ns': recase(rng, interop), 'reason': 'setup'})
+        return ops
+
+    def ns_inst(self, name, drop=None, **override):
+        vals = dict(self.NSKEYS)
+        vals['Name'] = name
+        vals.update(override)
+        props = []
+        for k in [k for k, _ in self.NSKEYS] + ['Name']:
+            if k == drop:
+                continue
+            v = vals[k]
+            props.append(pv(recase(self.rng, k), 'string', None if v is None else sval(v)))
+        return {'cls': recase(self.rng, self.NSCLASS), 'props': props}
+
+    def g_nsprov(self, st):
+        rng = self.rng
+        interop = self.nsprov
+        n = self.find_ns(st, interop)
+        if n is None or not self.find_class(n, self.NSCLASS):
+            return None
+        ns = interop if rng.random() < 0.7 else recase(rng, interop)
+        names = self.ns_names(st)
+        insts = [x for x in n['insts'] if x['path']['cls'].lower() == self.NSCLASS.lower()]
+
+        def name_of(x):
+            for k, v in x['path']['keys']:
+                if k.lower() == 'name' and v is not None and 's' in v:
+                    return v['s']
+            return None
+        with_inst = {(name_of(x) or '').lower() for x in insts}
+        reason = rng.choice(['create_ok'] * 4 + ['create_missing_key'] * 2 + ['create_no_name', 'create_no_ccn', 'create_name_null',
+                             'create_ccn_null', 'create_ccn_mismatch', 'create_existing_ns', 'create_dup', 'create_dup_other_keys',
+                             'create_second_interop', 'create_descr', 'create_unknown_prop', 'create_slashes', 'create_other_ns',
+                             'delete_ok', 'delete_ok', 'delete_nonempty', 'delete_interop', 'delete_ns_gone', 'delete_notfound',
+                             'modify'])
+        if reason.startswith('create'):
+            fresh = self.fresh('root/p')
+            i = None
+            if reason == 'create_ok':
+                i = self.ns_inst(fresh)
+            elif reason == 'create_missing_key':
+                i = self.ns_inst(fresh, drop=rng.choice([k for k, _ in self.NSKEYS if k != 'CreationClassName']))
+            elif reason == 'create_no_name':
+                i = self.ns_inst(fresh, drop='Name')
+            elif reason == 'create_no_ccn':
+                i = self.ns_inst(fresh, drop='CreationClassName')
+            elif reason == 'create_name_null':
+                i = self.ns_inst(None)
+            elif reason == 'create_ccn_null':
+                i = self.ns_inst(fresh, CreationClassName=None)
+            elif reason == 'create_ccn_mismatch':
+                i = self.ns_inst(fresh, CreationClassName='CIM_Other')
+            elif reason == 'create_existing_ns':
+                cands = [x for x in names if x.lower() not in with_inst]
+                if cands:
+                    i = self.ns_inst(recase(rng, rng.choice(cands)))
+            elif reason == 'create_dup':
+                cands = [name_of(x) for x in insts if name_of(x)]
+                if cands:
+                    i = self.ns_inst(recase(rng, rng.choice(cands)))
+            elif reason == 'create_dup_other_keys':
+                cands = [name_of(x) for x in insts if name_of(x)]
+                if cands:
+                    i = self.ns_inst(rng.choice(cands), SystemName='OtherSystem')
+            elif reason == 'create_second_interop':
+                cands = [x for x in ('interop', 'root/interop', 'root/PG_Interop') if x.lower() != interop.lower()]
+                i = self.ns_inst(rng.choice(cands))
+            elif reason == 'create_descr':
+                i = self.ns_inst(fresh)
+                i['props'].append(pv('descr', 'string', sval('d')))
+            elif reason == 'create_unknown_prop':
+                i = self.ns_inst(fresh)
+                i['props'].append(pv('nosuchprop', 'string', sval('d')))
+            elif reason == 'create_slashes':
+                i = self.ns_inst(rng.choice(['/', '//']) + fresh + rng.choice(['', '/']))
+            elif reason == 'create_other_ns':
+                i = self.ns_inst(fresh)
+                ns = rng.choice([x for x in names if x.lower() != interop.lower()])
+            if i is None:
+                return None
+            return {'op': 'createInstance', 'ns': ns, 'inst': i, 'reason': 'nsprov_' + reason}
+        if not insts:
+            return None
+
+        def empty(name):
+            m = self.find_ns(st, name)
+            return m is not None and not (m['classes'] or m['quals'] or m['insts'])
+        pick = None
+        if reason == 'delete_ok':
+            cands = [x for x in insts if name_of(x) and empty(name_of(x)) and name_of(x).lower() != BASE_NSS[0]]
+            pick = rng.choice(cands) if cands else None
+        elif reason == 'delete_nonempty':
+            cands = [x for x in insts if name_of(x) and self.find_ns(st, name_of(x)) and not empty(name_of(x))
+                     and name_of(x).lower() != interop.lower()]
+            pick = rng.choice(cands) if cands else None
+        elif reason == 'delete_interop':
+            cands = [x for x in insts if (name_of(x) or '').lower() == interop.lower()]
+            pick = rng.choice(cands) if cands else None
+        elif reason == 'delete_ns_gone':
+            cands = [x for x in insts if name_of(x) and self.find_ns(st, name_of(x)) is None]
+            pick = rng.choice(cands) if cands else None
+        elif reason in ('delete_notfound', 'modify'):
+            pick = rng.choice(insts)
+        if pick is None:
+            return None
+        path = {'cls': recase(rng, pick['path']['cls']), 'ns': None,
+                'keys': [[recase(rng, k), v] for k, v in pick['path']['keys']]}
+        if reason == 'delete_notfound':
+            path['keys'] = [[k, sval('nosuchnamespace') if k.lower() == 'name' else v] for k, v in path['keys']]
+        if reason == 'modify':
+            return {'op': 'modifyInstance', 'ns': ns, 'path': path,
+                    'inst': {'cls': pick['cls'], 'props': [pv('Descr', 'string', sval('changed'))]},
+                    'reason': 'nsprov_modify'}
+        return {'op': 'deleteInstance', 'ns': ns, 'path': path, 'reason': 'nsprov_' + reason}
 
     def g_deleteInstance(self, st):
         rng = self.rng
@@ -1425,25 +1630,59 @@ class Gen:
         rng = self.rng
         n = self.pick_ns(st)
         m = rng.choice([1, 2, 2, 3, 3, 4, 5])
-        prods = self.valid_prods(st, n, m)
+        # (item, namespace record it is compiled into)
+        flat = [(p, n) for p in self.valid_prods(st, n, m)]
+        directives = rng.random() < 0.45
+        has_interop = any(x.lower() in ('interop', 'root/interop', 'root/pg_interop') for x in self.ns_names(st))
+        if directives and rng.random() < 0.7:
+            # a second segment behind a namespace pragma
+            n2 = self.pick_ns(st)
+            flat.append(({'k': 'pragma_ns', 'ns': recase(rng, n2['name'])}, n2))
+            flat += [(p, n2) for p in self.valid_prods(st, n2, rng.choice([1, 2, 3]))]
         reason = rng.choice(['ok', 'ok', 'syntax', 'missing_include', 'missing_include', 'cls_nosuper', 'cls_missing_ref',
                              'cls_undeclared_qual',
                              'cls_exists_has_instances', 'cls_ref_in_nonassoc', 'inst_noclass', 'inst_missing_key',
-                             'inst_unknown_prop', 'inst_ref_missing', 'bad_ns'])
-        op = {'op': 'compileMof', 'ns': recase(rng, n['name']), 'prods': prods, 'reason': reason, 'fail_pos': None,
+                             'inst_unknown_prop', 'inst_ref_missing', 'bad_ns'] +
+                            (['bad_pragma', 'pragma_ns_missing', 'pragma_ns_missing'] if directives else []))
+        op = {'op': 'compileMof', 'ns': recase(rng, n['name']), 'reason': reason, 'fail_pos': None,
               'via': rng.choice(['string', 'string', 'string', 'file'])}
-        if reason == 'ok':
-            return op if prods else None
         if reason == 'bad_ns':
             op['ns'] = self.bad_ns()
             op['fail_pos'] = 0
-            return op
-        bad = self.bad_prod(st, n, reason)
-        if bad is None:
+        elif reason != 'ok':
+            k = rng.randint(0, len(flat))
+            nk = flat[k - 1][1] if k > 0 else n
+            if reason == 'bad_pragma':
+                bad = [({'k': 'bad_pragma'}, nk)]
+            elif reason == 'pragma_ns_missing':
+                if has_interop:
+                    return None
+                follow = rng.choice([{'k': 'qual', 'qual': {'name': self.fresh('Q'), 'ty': 'boolean', 'scopes': ['any'], 'body': 0}},
+                                     {'k': 'cls', 'cls': cdef(self.fresh('TC_'), None, [], [pdef('zz', 'uint32')])},
+                                     {'k': 'inst', 'inst': {'cls': 'TC_Any', 'props': [pv('k', 'string', sval('v'))]}}])
+                bad = [({'k': 'pragma_ns', 'ns': 'root/zz'}, nk), (follow, nk)]
+                flat = flat[:k]          # what follows would be compiled into the missing namespace as well
+            else:
+                b = self.bad_prod(st, nk, reason)
+                if b is None:
+                    return None
+                bad = [(b, nk)]
+            flat = flat[:k] + bad + flat[k:]
+            op['fail_pos'] = k + 1
+        elif not flat:
             return None
-        k = rng.randint(0, len(prods))
-        op['prods'] = prods[:k] + [bad] + prods[k:]
-        op['fail_pos'] = k + 1
+        items = [x for x, _ in flat]
+        if directives:
+            # wrap runs of items into include files (nested up to depth 2) and sprinkle ignored pragmas
+            for _ in range(rng.choice([1, 1, 2])):
+                if len(items) >= 1:
+                    i = rng.randrange(len(items))
+                    j = rng.randint(i + 1, len(items))
+                    items = items[:i] + [{'k': 'include_file', 'items': items[i:j]}] + items[j:]
+            if rng.random() < 0.3:
+                items.insert(rng.randint(0, len(items)), {'k': 'other_pragma'})
+            op['reason'] = reason + ':directives'
+        op['prods'] = items
         return op
 
 
@@ -1486,8 +1725,16 @@ def run_history(seed, thorough, nops, keep_cache=False):
         op = g.g_assoc(states[-1], rng.choice(['create_cross', 'create_cross', 'create_same', 'onesided']))
         for o in (op if isinstance(op, list) else [op] if op is not None else []):
             do(o)
+    if rng.random() < 0.45:
+        for op in g.nsprov_setup(rng.choice(['interop', 'interop', 'root/interop', 'root/PG_Interop'])):
+            do(op)
     for _ in range(nops):
-        op = g.next_assoc_op(states[-1]) if rng.random() < 0.25 else g.next_op(states[-1])
+        r = rng.random()
+        op = None
+        if g.nsprov is not None and r < 0.2:
+            op = g.g_nsprov(states[-1])
+        elif r < 0.4:
+            op = g.next_assoc_op(states[-1])
         if op is None:
             op = g.next_op(states[-1])
         for o in (op if isinstance(op, list) else [op]):
